@@ -22,7 +22,7 @@ from buidl.script import (
 from buidl.tx import TxOut
 
 from vf import gen
-from vf.core import Sub, Violation, attempt, must, require
+from vf.core import HarnessError, Sub, Violation, attempt, must, require
 from vf.ref import bech32 as rb
 from vf.ref import bip32 as r32
 from vf.ref import ec
@@ -440,6 +440,72 @@ def _accepted_by(text):
     return out
 
 
+# ====================================== strings the specs reject (valid checksum, invalid content)
+
+BAD_KINDS = ["program_too_short", "program_too_long", "unknown_hrp", "char_outside_alphabet",
+             "mixed_case", "no_separator", "no_program",
+             # observed only: the statement does not speak about them and the library accepts them
+             "obs:nonzero_padding", "obs:version>16"]
+
+
+def bad_strategy(tier):
+    return st.fixed_dictionaries({
+        "kind": st.sampled_from(BAD_KINDS),
+        "version": st.sampled_from(range(17)),
+        "network": st.sampled_from(NETWORKS),
+        "raw": st.binary(min_size=64, max_size=64),
+        "n": st.integers(0, 10**6),
+    })
+
+
+def check_bad(case, ctx):
+    """BIP173/BIP350: witness programs are 2..40 bytes; the human-readable part is one of the supported
+    networks'; the data part uses the 32-character alphabet in one case.  Every string below carries a
+    CORRECT checksum for its (invalid) content, so that rejection cannot come from the checksum test."""
+    kind, version, network, raw, n = case["kind"], case["version"], case["network"], bytes(case["raw"]), case["n"]
+    hrp = rb.HRP[network]
+    spec = rb.spec_for_version(version)
+    ctx.label("kind:" + kind)
+    ctx.nontrivial()
+    if kind == "program_too_short":
+        text = rb.encode(hrp, [version] + rb.to5(raw[: n % 2]), spec)
+    elif kind == "program_too_long":
+        ln = 41 + n % 9  # up to 49 bytes: the text stays within the 90-character limit for every hrp
+        text = rb.encode(hrp, [version] + rb.to5(raw[:ln]), spec)
+    elif kind == "unknown_hrp":
+        bad_hrp = ["xy", "ltc", "bcr", "t", "b", "tbb", "bd"][n % 7]
+        text = rb.encode(bad_hrp, [version] + rb.to5(raw[:32]), spec)
+    elif kind in ("char_outside_alphabet", "mixed_case"):
+        good = rb.segwit_encode(hrp, version, raw[: 2 + n % 39])
+        start = len(hrp) + 1
+        i = start + (n // 64) % (len(good) - start)
+        if kind == "mixed_case":
+            letters = [j for j in range(start, len(good)) if good[j].isalpha()]
+            i = letters[(n // 64) % len(letters)]
+            text = good[:i] + good[i].upper() + good[i + 1:]
+        else:
+            text = good[:i] + "bio1"[n % 4] + good[i + 1:]
+    elif kind == "no_separator":
+        good = rb.segwit_encode(hrp, version, raw[: 2 + n % 39])
+        text = good[: len(hrp)] + good[len(hrp) + 1:]
+    elif kind == "no_program":
+        text = rb.encode(hrp, [version], spec)
+    elif kind == "obs:nonzero_padding":
+        ln = [20, 32, 2, 3, 7, 39][n % 6]
+        d5 = rb.to5(raw[:ln])
+        d5[-1] |= 1
+        text = rb.encode(hrp, [version] + d5, spec)
+    else:
+        text = rb.encode(hrp, [17 + n % 15] + rb.to5(raw[:32]), rb.BECH32M)
+    if rb.segwit_decode(text, strict_v0_len=False) is not None:
+        raise HarnessError(f"the reference decoder accepts a string built as {kind}: {text}")
+    acc = _accepted_by(text)
+    if kind.startswith("obs:"):
+        ctx.label(kind + ("_accepted" if acc else "_rejected"))
+        return
+    require(not acc, f"bad/accepted:{kind}", f"{text} accepted by {acc}")
+
+
 def check_subst(case, ctx):
     version, program, network = case["version"], bytes(case["program"]), case["network"]
     hrp = rb.HRP[network]
@@ -646,6 +712,12 @@ SUBS = [
                                                   "v0", "v1+", "double_incl_version_char"],
         nontrivial_rule="every case: one address with all 31*len single substitutions and the "
                         "sampled doubles"),
+    Sub("segwit_spec_rejects", check_bad, strategy=bad_strategy,
+        budget={"quick": 3000, "thorough": 100000},
+        required=["kind:" + k for k in BAD_KINDS],
+        nontrivial_rule="every case: one string with a correct checksum over content BIP173/350 "
+                        "forbid (program outside 2..40 bytes, unknown hrp, foreign character, mixed "
+                        "case, no separator, no program); padding and version > 16 are observed only"),
     Sub("script_address_bijection", check_bij, strategy=bij_strategy,
         budget={"quick": 10000, "thorough": 360000},
         required=[f"{t}/{n}" for t in TEMPLATES for n in NETWORKS]
